@@ -2,7 +2,8 @@
 """save_seeded.py <ID> <name> <property> <needs> <caught_by> : copies /tmp/mut-<ID>/MUTATION into /verif/seeded/<name>/ with meta.json"""
 import sys, os, shutil, json, subprocess
 ID, name, prop, needs, caught = sys.argv[1:6]
-src = "/tmp/mut-%s/MUTATION" % ID
+import os as _os
+src = "%s-%s/MUTATION" % (_os.environ.get("WTROOT","/tmp/mut"), ID)
 dst = "/verif/seeded/%s" % name
 os.makedirs(dst, exist_ok=True)
 for f in ("patch.diff", "demo_test.go", "README.md"):
@@ -10,7 +11,7 @@ for f in ("patch.diff", "demo_test.go", "README.md"):
         shutil.copy(os.path.join(src, f), os.path.join(dst, f))
 logs = {}
 for k in ("with", "without", "suite"):
-    p = "/tmp/mut-%s.%s.log" % (ID, k)
+    p = "%s-%s.%s.log" % (_os.environ.get("WTROOT","/tmp/mut"), ID, k)
     if os.path.exists(p):
         logs[k] = open(p, errors="replace").read()[-600:]
 base = subprocess.run(["git", "-C", "/repo", "rev-parse", "--short", "HEAD"], stdout=subprocess.PIPE, text=True).stdout.strip()
